@@ -4,8 +4,8 @@ namespace SdnsVerif.Gen.C15
 def header_len : Nat := 12
 def lib_hroom_violations : Nat := 0
 def lib_mono_violations : Nat := 0
-def lib_sample_messages : Nat := 520
-def lib_sample_records : Nat := 12324
+def lib_sample_messages : Nat := 560
+def lib_sample_records : Nat := 19500
 def libbits_single : List Nat := [0, 32768, 1024, 512, 256, 128, 64, 32, 16, 2048, 4096, 8192, 16384, 32768, 0, 1, 2, 4, 8, 0, 0, 15]
 def max_pooled_compression_entries : Nat := 64
 def msgbits_single : List Nat := [0, 32768, 1024, 512, 256, 128, 64, 32, 16, 2048, 4096, 8192, 16384, 32768, 0, 1, 2, 4, 8, 0, 0, 15]
@@ -15,6 +15,7 @@ def puts_after_fail : Nat := 1
 def puts_after_ok : Nat := 1
 def puts_after_panic : Nat := 1
 def puts_after_werr : Nat := 1
+def release_clean_after_names : List Bool := [true, true, true, true, true, true, true, true, true, true]
 def type_opt : Nat := 41
 def write_while_borrowed : Bool := true
 
